@@ -65,6 +65,12 @@ META = {
         level_note="Eviction and the 5-minute expiry are out of reach (bigcache reads the wall clock). Concurrent clause is sampling.",
         technique="stateful model-based property testing (rapid) + randomized concurrent batches against a map model",
     ),
+    "C19": dict(
+        level_text="One-field-at-a-boundary and all-pairs enumeration over the listed lengths, contents, integers and timestamps plus thousands of random vertices, pushed through every transcoding pair (wire mapping in memory and through proto.Marshal, transaction transformers, msgpack encode/decode of vertex, transaction, melange, balance); every signed field compared and validly signed originals re-verified with both the harness's and the repository's verifier.",
+        design_ref="DESIGN.md §4 C19",
+        level_note="Timestamps restricted to the int64-nanosecond range. proto.Marshal refusing invalid UTF-8 is an accepted, counted outcome.",
+        technique="property-based testing: round-trip oracle over boundary-product enumeration + rapid random fill",
+    ),
 }
 
 def _na():
